@@ -181,10 +181,23 @@ def run(ctx):
             # the data check stands between a call and the files
             mode = "rdwr"
             p0, p1 = rng.choice([("data", "none"), ("none", "data")])
+        raised = (not scenario) and rng.random() < 0.2
+        if raised:
+            mode, p0, p1 = "rdwr", "none", "none"
         enc, L = template(rng, p0, p1)
         L += ["open " + mode, "dumpmeta", "lsr"]
         st = {"n": 0}
-        for _ in range(rng.randint(2, 10)):
+        if raised:
+            # the protection level is raised on a live handle: data files that calls made while the fragment was still
+            # unprotected left open (for writing) must be just as untouchable afterwards as any other
+            pf = rng.choice([0, 1])
+            for _ in range(rng.randint(1, 3)):
+                deriv = rng.choice(["l1", "ph", "al", "a", "b"]) if pf == 0 else rng.choice(["px", "lx", "P_y_S", "P_x_S", "P_z_S"])
+                L += [rng.choice(["put %s 0 %d u16 1,2,3" % (deriv, rng.randint(0, 60)), "get %s 0 0 0 5 f64" % deriv]), "dumpmeta", "lsr"]
+            L += ["protect %d %d" % (rng.choice([2, 3]), pf), "dumpmeta", "lsr"]
+            for _ in range(rng.randint(2, 6)):
+                L += [call_data(rng, st, pf) if rng.random() < 0.8 else call(rng, st), "dumpmeta", "lsr"]
+        for _ in range(0 if raised else rng.randint(2, 10)):
             L += [call_data(rng, st, 0 if p0 == "data" else 1) if scenario and rng.random() < 0.8 else call(rng, st), "dumpmeta", "lsr"]
         L += ["close"]
         chunks.append(L)
